@@ -1,22 +1,26 @@
 import Driver.Util
-import MpcVerif.Model.Pool
+import MpcVerif.Model.PoolGC
 
 namespace Drv.C17
 open Mpc.Pool
 
-/-- `G:t:h:s:p:d | V:t:h:d | R:t:h | Q:t:h | A:t | C:t` -/
-def parseEv (s : String) : Option Ev :=
+/-- `G:t:h:s:p:d | V:t:h:d | R:t:h | Q:t:h | A:t | C:t`, and in GC histories
+`D:t:h` (header of `h` dropped, data retained) and `K:t` (collections forced). -/
+def parseEv (s : String) : Option GEv :=
   match s.splitOn ":" with
-  | ["G", t, h, x, p, d] => do some (.garble (← t.toNat?) (← h.toNat?) (← x.toNat?) (← p.toNat?) (← d.toNat?))
-  | ["V", t, h, d] => do some (.verify (← t.toNat?) (← h.toNat?) (← d.toNat?))
-  | ["R", t, h] => do some (.release (← t.toNat?) (← h.toNat?))
-  | ["Q", t, h] => do some (.release2 (← t.toNat?) (← h.toNat?))
-  | ["A", t] => do some (.abort (← t.toNat?))
-  | ["C", t] => do some (.compute (← t.toNat?))
+  | ["G", t, h, x, p, d] =>
+    do some (.base (.garble (← t.toNat?) (← h.toNat?) (← x.toNat?) (← p.toNat?) (← d.toNat?)))
+  | ["V", t, h, d] => do some (.base (.verify (← t.toNat?) (← h.toNat?) (← d.toNat?)))
+  | ["R", t, h] => do some (.base (.release (← t.toNat?) (← h.toNat?)))
+  | ["Q", t, h] => do some (.base (.release2 (← t.toNat?) (← h.toNat?)))
+  | ["A", t] => do some (.base (.abort (← t.toNat?)))
+  | ["C", t] => do some (.base (.compute (← t.toNat?)))
+  | ["D", t, h] => do some (.drop (← t.toNat?) (← h.toNat?))
+  | ["K", t] => do some (.collect (← t.toNat?))
   | _ => none
 
 /-- `c17 trace <event> <event> ...`: is the logged sequence of pool events of a
-real run a run of the model (each call executed as its block of atomic model
+real run (a GC history included) a run of the model (each call executed as its block of atomic model
 steps at the position of its log entry)?  Prints the verdict and the summary
 statistics of the replay. -/
 def handle (args : List String) : String :=
@@ -25,12 +29,13 @@ def handle (args : List String) : String :=
     match evs.mapM parseEv with
     | none => "bad-op"
     | some evs =>
-      match replay { σ := init traceParams } 0 evs with
+      match replayG { r := { σ := init traceParams } } 0 evs with
       | .error m => m
-      | .ok r =>
+      | .ok g =>
+        let r := g.r
         s!"ok pools={r.σ.nPools} scratch={r.smap.length} handles={r.handles} reused={r.reused} " ++
         s!"maxlive={r.maxLive} live={r.live} releases={r.releases} noops={r.noops} aborts={r.aborts} " ++
-        s!"verifies={r.verifies}"
+        s!"verifies={r.verifies} dropped={g.dropped} collects={g.collects}"
   | _ => "bad-op"
 
 end Drv.C17
